@@ -10,8 +10,8 @@ import (
 	"github.com/Comcast/sheens/interpreters/ecmascript"
 	"github.com/Comcast/sheens/match"
 	"pgregory.net/rapid"
-	"verif/internal/ev"
-	"verif/internal/jsongen"
+	"verif/lib/ev"
+	"verif/lib/jsongen"
 )
 
 // ---------------------------------------------------------------- C10
